@@ -19,7 +19,7 @@ STRS = ["", "a", "tok", "12/34", "a b", "a  b", " lead", "trail ", "\"q\"", "bac
         "é", "日本語", "\U0001F600", "\U0010FFFF", "\ufffd", "\ud7ff", "\ue000", "a&b=c", "%41", "{\"x\":1}", "null", "true", "0", "/", "</script>",
         "x" * 300, "ÿ", "\u0080"]
 TT = ["bearer", "Bearer", "BEARER", "bEaReR", "mac", "MAC", "Mac", "dpop", "DPoP", "N_A", "urn:x", "", " bearer", "bearer ", "日本", "\U0001F600", "b e", "pop-1",
-      "ÉCLAIR", "Schlüssel", "SCHLÜSSEL", "ÀÞ×ß", "ПРИВЕТ", "Ёж", "ΑΒΓΩ", "αβγ", "ÉÉ-Ö_Ü"]
+      "ÉCLAIR", "Schlüssel", "SCHLÜSSEL", "ÀÞ×ß", "ПРИВЕТ", "Ёж", "ΑΒΓΩ", "αβγ", "ÉÉ-Ö_Ü", "ǅwt", "ǄWT", "ǈ", "ǋǊ", "ǲ-ǱX"]
 UNKNOWN_NAMES = ["foo", "id", "x", "Access_Token", "access-token", "expires", "scopes", "data", "é", "", "active2", "error", "error_description"]
 URLS_VALID = ["https://verify/here", "https://example.com/device?x=1", "HTTPS://EXAMPLE.COM/Dev", "https://exämple.com/ü", "custom:opaque", "https://e/" + "v" * 200]
 URLS_INVALID = ["", "verify/here", "//host/x", "https://", "not a url", "http://[::1"]
